@@ -1,5 +1,5 @@
 (* C09 property theorems: statements + `exact lemma` only. *)
-From CJ Require Import Common.Base C09.Model C09.ProofsA C09.ProofsV C09.ProofsS C09.ProofsB.
+From CJ Require Import Common.Base C09.Model C09.ProofsA C09.ProofsV C09.ProofsS C09.ProofsB C09.ModelR C09.ProofsR.
 From Coq Require Import Arith PeanoNat Permutation.
 Local Open Scope nat_scope.
 
@@ -117,3 +117,69 @@ Theorem C09_shutdown_bounded : forall nw cap work p,
   p_after p <= 1.
 Proof. exact shutdown_bounded_lemma. Qed.
 Print Assumptions C09_shutdown_bounded.
+
+(* ---- configuration reload as an operation of the history (ModelR.v): any initial policy, any
+   sequence of reloads (each ONE write section), any number of workers, every schedule ---- *)
+
+(* Every policy read section of an ingest evaluates the policy in force, in full: policy number n,
+   where n is the number of reloads that precede the section in the schedule. *)
+Theorem C09_policy_section_reads_policy_in_force : forall split pols ms s1 w m pc vs,
+  let c1 := rrun split pols (rinit ms) s1 in
+  r_thr c1 w = RW m pc vs ->
+  let n := count_reloads s1 in
+  r_thr (rstep split pols c1 (RStep w)) w =
+    RW m (fst (rwstep split (pols n) n m pc vs)) (snd (rwstep split (pols n) n m pc vs)).
+Proof. exact section_reads_policy_in_force. Qed.
+Print Assumptions C09_policy_section_reads_policy_in_force.
+
+(* The covert address check (allowlist switch and lists, one read section) lets the ingest go on iff
+   the policy before-or-after each reload IN FULL does: never the switch of one configuration with
+   the list of another. *)
+Theorem C09_covert_check_one_policy_in_full : forall pols ms s1 w m vs,
+  let c1 := rrun false pols (rinit ms) s1 in
+  r_thr c1 w = RW m RAddr vs ->
+  let n := count_reloads s1 in
+  r_thr (rstep false pols c1 (RStep w)) w =
+    RW m (if addr_blocked (p_sw (pols n)) (p_allow (pols n)) (p_block (pols n)) (r_addr m) then REnd false else RLate) (n :: vs).
+Proof. exact covert_addr_one_policy_lemma. Qed.
+Print Assumptions C09_covert_check_one_policy_in_full.
+
+(* The decision of a finished ingest is that of four policies, one per read section, each complete,
+   with non-decreasing versions between the first and the last one the ingest read. *)
+Theorem C09_ingest_decision_monotone_policies : forall pols ms acts w m acc vs,
+  let c := rrun false pols (rinit ms) acts in
+  r_thr c w = RW m (REnd acc) vs ->
+  exists v0 v1 v2 v3, v0 <= v1 /\ v1 <= v2 /\ v2 <= v3 /\ v3 <= count_reloads acts /\
+                      last vs 0 = v0 /\ hd 0 vs = v3 /\ acc = mixed pols m v0 v1 v2 v3.
+Proof. exact ingest_decision_lemma. Qed.
+Print Assumptions C09_ingest_decision_monotone_policies.
+
+(* Serializable with the reloads as operations (partial: see RefutedR.C09_ingest_one_policy_full_statement,
+   false for the code as pinned when the policies of the span disagree in different sections): if the
+   policies in force during the span of an ingest agree section by section on its registration, its
+   decision is the decision of each of them in full -- before or after every reload of the span. *)
+Theorem C09_ingest_reload_serializable_partial : forall pols ms acts w m acc vs,
+  let c := rrun false pols (rinit ms) acts in
+  r_thr c w = RW m (REnd acc) vs ->
+  (forall v, last vs 0 <= v <= hd 0 vs -> agree_on (pols (last vs 0)) (pols v) m = true) ->
+  forall v, last vs 0 <= v <= hd 0 vs -> acc = ingest_dec (pols v) m.
+Proof. exact ingest_serial_lemma. Qed.
+Print Assumptions C09_ingest_reload_serializable_partial.
+
+(* ... in particular an ingest with no reload inside its span is judged by the one policy in force. *)
+Theorem C09_ingest_no_reload_in_span : forall pols ms acts w m acc vs,
+  let c := rrun false pols (rinit ms) acts in
+  r_thr c w = RW m (REnd acc) vs -> last vs 0 = hd 0 vs -> acc = ingest_dec (pols (hd 0 vs)) m.
+Proof. exact ingest_no_reload_in_span_lemma. Qed.
+Print Assumptions C09_ingest_no_reload_in_span.
+
+(* ... and, as runs: the concurrent run gives the worker the decision of the SERIAL run "this ingest
+   after exactly v reloads", for every v of its span. *)
+Theorem C09_ingest_equals_serial_run : forall pols ms acts w m acc vs,
+  nth_error ms w = Some m ->
+  r_thr (rrun false pols (rinit ms) acts) w = RW m (REnd acc) vs ->
+  (forall v, last vs 0 <= v <= hd 0 vs -> agree_on (pols (last vs 0)) (pols v) m = true) ->
+  forall v, last vs 0 <= v <= hd 0 vs ->
+  exists vs', r_thr (rrun false pols (rinit ms) (serial_at v w)) w = RW m (REnd acc) vs'.
+Proof. exact ingest_equals_serial_run_lemma. Qed.
+Print Assumptions C09_ingest_equals_serial_run.
